@@ -1,0 +1,14 @@
+//go:build verif
+
+package routingtable
+
+// VerifJoined reports whether this member has completed the memberlist join
+// (This() is valid from then on). It says nothing about bootstrapping.
+func (r *RoutingTable) VerifJoined() bool {
+	select {
+	case <-r.joined:
+		return true
+	default:
+		return false
+	}
+}
